@@ -301,15 +301,20 @@ def extent_rules(chk, cr, q, ev, resolver, helper=False):
                        fingerprint=f"accumulate:{'max' if mx else 'min'}", found=f"{call_name(a)} of {sorted(kinds)} seeded {seed}")
         # slab bounds: (lower from floor, upper from ceil), no shrinking
         if helper:
-            it = seq_items(ev.returns[-1].value) if ev.returns else None
-            ok = False
-            desc = None
-            if it and len(it) == 2:
-                lo_k, hi_k = bound_kind(it[0], ev), bound_kind(it[1], ev)
-                ok = lo_k == "floor" and hi_k == "ceil"
-                desc = f"lower from {lo_k}, upper from {hi_k}"
-            chk.ob("R03.2", CR, "Crystal." + q, "the helper returns (lower = floor-derived, upper = ceil-derived) cells", ok,
-                   fingerprint="slab-bounds", found=desc)
+            # on every return path: a shortcut that returns fixed cells is only right for centres inside the reference cell
+            ok = bool(ev.returns)
+            descs = []
+            for r in ev.returns:
+                it = seq_items(r.value) if r.value is not None else None
+                if it and len(it) == 2:
+                    lo_k, hi_k = bound_kind(it[0], ev), bound_kind(it[1], ev)
+                    ok = ok and lo_k == "floor" and hi_k == "ceil"
+                    descs.append(f"line {r.lineno}: lower from {lo_k}, upper from {hi_k}")
+                else:
+                    ok = False
+                    descs.append(f"line {r.lineno}: {str(r.value)[:60]}")
+            chk.ob("R03.2", CR, "Crystal." + q, "the helper returns (lower = floor-derived, upper = ceil-derived) cells on every path", ok,
+                   fingerprint="slab-bounds", found="; ".join(descs)[:300])
         elif q in SLAB_SITES:
             slab_calls = [e for e in ev.events if e.kind == "call" and call_name(e.value.as_atom() or ()) == ".slab"]
             chk.need(slab_calls, f"Crystal.{q}: call to slab not found")
